@@ -65,7 +65,7 @@ def leaves_of(d):
         for n in items:
             t = n['t']
             if t == 'text' and 'adv' in n:
-                out.append([docs.adv_expected(n).split(' ')[0], title, n['words'][0], n['adv']])
+                out.append([docs.ADV_POOL[n['adv']][1].replace('M', n['words'][0]), title, n['words'][0], n['adv']])      # (the whole form, blanks included)
             elif t in ('fontcmd', 'fontdecl', 'footnote', 'box'):
                 inl(n['c'], title)
 
